@@ -141,3 +141,40 @@ def lab_sweep(chunk, extra):
             fails.append({'colour': c, 'library': list(v), 'reference': [float(x) for x in ref[k]], 'max_abs_err': err})
             if len(fails) > 20: break
     return {'n': len(ids), 'fails': fails[:20], 'stats': {'max_abs_err': maxerr}}
+
+
+def oklch_sweep(chunk, extra):
+    """C10: rgb_to_oklch of the REAL function on every colour vs the OKLab definition (longdouble), ranges in floats,
+    and the round trip oklch_to_rgb(rgb_to_oklch(c)) == c"""
+    np = _np_tables()
+    from cm_colors.core.conversions import rgb_to_oklch, oklch_to_rgb, rgb_to_oklch_safe, oklch_to_rgb_safe
+    ids = np.fromiter(chunk, dtype=np.int64)
+    ch = np.stack([(ids >> 16) & 255, (ids >> 8) & 255, ids & 255], axis=1)
+    lin = _REF['T'][ch]
+    lms = np.cbrt(lin @ _REF['M1'].T)
+    lab = lms @ _REF['M2'].T
+    Lr = np.clip(lab[:, 0], 0, 1); Cr = np.sqrt(lab[:, 1] ** 2 + lab[:, 2] ** 2)
+    Hr = np.degrees(np.arctan2(lab[:, 2], lab[:, 1])); Hr = np.where(Hr < 0, Hr + 360, Hr)
+    fails = []; mL = mC = mH = 0.0; n = 0
+    for k, i in enumerate(ids.tolist()):
+        c = rgb_of(i); n += 1
+        try:
+            L, C, H = rgb_to_oklch(c)
+            back = oklch_to_rgb((L, C, H))
+            s1 = rgb_to_oklch_safe(c); s2 = oklch_to_rgb_safe((L, C, H))
+        except Exception as e:
+            fails.append({'colour': c, 'what': 'raised', 'detail': f'{type(e).__name__}: {e}'}); continue
+        eL, eC = abs(float(np.longdouble(L) - Lr[k])), abs(float(np.longdouble(C) - Cr[k]))
+        eH = 0.0
+        if float(Cr[k]) >= 1e-6:
+            eH = abs(float(np.longdouble(H) - Hr[k])); eH = min(eH, 360 - eH)
+        mL, mC, mH = max(mL, eL), max(mC, eC), max(mH, eH)
+        bad = None
+        if not (0.0 <= L <= 1.0 and C >= 0.0 and 0.0 <= H < 360.0): bad = 'range'
+        elif eL > 1e-12 or eC > 1e-12 or eH > 1e-7: bad = 'definition'
+        elif back != c: bad = 'round trip'
+        elif s1 != (L, C, H) or s2 != back: bad = 'safe variant differs from plain on valid input'
+        if bad:
+            fails.append({'colour': c, 'what': bad, 'library': [L, C, H], 'reference': [float(Lr[k]), float(Cr[k]), float(Hr[k])], 'back': back, 'safe': [s1, s2]})
+            if len(fails) > 20: break
+    return {'n': n, 'fails': fails[:20], 'stats': {'max_err_L': mL, 'max_err_C': mC, 'max_err_H_deg': mH}}
